@@ -1825,11 +1825,22 @@ func (c *Conn) handleFutureCiphertextPacket(
 	}
 }
 
+// replayDetectorWindow is the window size handed to the replay detector: the
+// configured size rounded up to a whole number of 64-bit words. The detector's
+// bitmap loses the upper bits of a partially used word whenever the window
+// slides, so a record inside the configured window could be accepted a second
+// time. A larger window only tolerates more reordering.
+func replayDetectorWindow(window uint) uint {
+	const wordBits = 64
+
+	return (window + wordBits - 1) / wordBits * wordBits
+}
+
 func (c *Conn) protectedReplayMarker(epoch uint16, sequenceNumber uint64) (func() bool, bool) {
 	common := dtlsstate.CommonState(c.state)
 	for len(common.ReplayDetector) <= int(epoch) {
 		common.ReplayDetector = append(common.ReplayDetector,
-			replaydetector.New(c.replayProtectionWindow, ^uint64(0)),
+			replaydetector.New(replayDetectorWindow(c.replayProtectionWindow), ^uint64(0)),
 		)
 	}
 	accept, ok := common.ReplayDetector[int(epoch)].Check(sequenceNumber)
@@ -1970,7 +1981,7 @@ func (c *Conn) legacyReplayMarker(header *recordlayer.Header) (func() bool, bool
 	common := dtlsstate.CommonState(c.state)
 	for len(common.ReplayDetector) <= int(header.Epoch) {
 		common.ReplayDetector = append(common.ReplayDetector,
-			replaydetector.New(c.replayProtectionWindow, recordlayer.MaxSequenceNumber),
+			replaydetector.New(replayDetectorWindow(c.replayProtectionWindow), recordlayer.MaxSequenceNumber),
 		)
 	}
 	markPacketAsValid, ok := common.ReplayDetector[int(header.Epoch)].Check(header.SequenceNumber)
